@@ -47,6 +47,10 @@ def main(tier, seed):
                       lambda m: m.get("event", {}).get("e") in ("Reenter", "ReenterEnd") or
                       m.get("after", {}).get("op") in ("CallNative", "CallFunction") or
                       (m.get("event", {}).get("d", 1) > 1 and m.get("after", {}).get("op") == "Return"))
+    # the same with the contents of the value stack (VmData.tla): after a host call the caller's values are what they were, less the
+    # parameters, plus one result; nothing below is touched unless a called-back function assigns a captured variable
+    instr_conformance(run, ["host", "hosttry"], 10 if tier != "thorough" else 100, seed + 1, "C18-data",
+                      lambda m: "after a host call" in str(m.get("why")) or "below the frame" in str(m.get("why")), max_events=1500, values=True)
     # a callee that was re-entered through a host function fails, the host function handles the failure: the caller's variables
     # are untouched and what the callee's closures captured keeps its value (VmLife.Persist)
     pf = os.path.join(d, "persist.ndjson")
